@@ -139,10 +139,14 @@ func init() {
 				c.Payload, c.RDict = pl, 0
 				c.Ops = []Op{{K: "w", N: pl.Len()}, {K: "c"}}
 			}
+			wildConfig(r, c)
 			return c
 		},
 		Run: func(c *WCase, x *sim.Ctx) *sim.Violation {
 			res := runWriter(c, x)
+			if refusedWild(c, res, x) {
+				return nil
+			}
 			probeWCase(c, res, x)
 			if len(res.Log) > 0 || (res.CloseIdx >= 0 && res.CloseIdx < len(res.Calls)-1) {
 				x.Nontrivial(1)
